@@ -5,7 +5,7 @@ import engine as E
 
 def run_table(prop, tier, seed, work, module, mc_cfgs, gen_module, gen_cfg, trace_module, trace_cfg,
               sig_fn, distinct_fn, env=None, guard_prefixes=None, harness_prop=None, confirm_env=None,
-              post=None, binary=None, extra_cases=None, timeout=1500, sig_full=None):
+              post=None, binary=None, extra_cases=None, timeout=1500, sig_full=None, chunk=None):
     res = E.Result(prop, tier, seed)
     cov = res.cov
     binary = binary or E.build_harness(work)
@@ -30,7 +30,12 @@ def run_table(prop, tier, seed, work, module, mc_cfgs, gen_module, gen_cfg, trac
         if len(evs) < len(rows):
             raise E.Inconclusive("harness answered %d of %d cases" % (len(evs), len(rows)))
         E.write_ndjson(epath, evs)
-        devs = E.monitor(work, trace_module, trace_cfg, epath, cov)
+        if chunk and len(evs) > chunk:
+            # one row = one verdict: the monitor's state does not carry over, so the trace can be validated in pieces (a
+            # tree on which very many rows deviate would otherwise make one TLC run accumulate them for minutes)
+            devs = E.monitor_chunked(work, trace_module, trace_cfg, epath, cov, chunk=chunk, par=6, timeout=900)
+        else:
+            devs = E.monitor(work, trace_module, trace_cfg, epath, cov)
         return evs, devs
 
     evs, devs = execute(cases, "all", envd)
